@@ -1000,6 +1000,15 @@ def _f10(vio):
 _classify_predicates = classify
 
 
+@mechanism("F130-partitioned-to-json-kwargs")
+def _f130(vio):
+    """ak.to_json of a partitioned array: convert.py passes nan_string=... to PartitionedArray.tojson, whose binding
+    (src/python/partition.cpp) only takes pretty/maxdecimals -> TypeError for every partitioned input"""
+    det = vio.get("detail") or {}
+    return (vio.get("kind") == "partition-outcome-differs" and (det.get("op") or {}).get("op") == "tojson"
+            and "tojson(): incompatible function arguments" in str(det.get("got")))
+
+
 def classify(vio):          # noqa: F811
     m = _classify_predicates(vio)
     if m:
